@@ -164,8 +164,19 @@ func candidates(sc *Scenario) []*Scenario {
 		return ok
 	})
 	add(func(c *Scenario) bool { ok := c.Cancel.Deadline; c.Cancel.Deadline = false; return ok })
-	add(func(c *Scenario) bool { ok := c.Buffer; c.Buffer = false; c.Writer = WriterSpec{}; return ok })
+	add(func(c *Scenario) bool {
+		ok := c.Buffer
+		c.Buffer = false
+		c.Writer = WriterSpec{}
+		c.OuterBuf = false
+		return ok
+	})
 	add(func(c *Scenario) bool { ok := c.LogErr; c.LogErr = false; return ok })
+	add(func(c *Scenario) bool { ok := c.OuterBuf; c.OuterBuf = false; return ok })
+	add(func(c *Scenario) bool { ok := c.IDScheme != 0; c.IDScheme = 0; return ok })
+	add(func(c *Scenario) bool { ok := c.UseTaskMap; c.UseTaskMap = false; return ok })
+	add(func(c *Scenario) bool { ok := c.UseColor; c.UseColor = false; return ok })
+	add(func(c *Scenario) bool { ok := c.MaxParFirst != 0; c.MaxParFirst = 0; return ok })
 	add(func(c *Scenario) bool { ok := c.Serial; c.Serial = false; return ok })
 	add(func(c *Scenario) bool { ok := c.MaxPar != 0; c.MaxPar = 0; return ok })
 	add(func(c *Scenario) bool {
